@@ -62,6 +62,27 @@ pub trait Rule: RuleClone + Debug + Send {
                 keep_no_eol(&rendered.replace('\\', "\\\\"))
             ),
             "escaped" => format!("{} (escaped{quantifier})", keep_no_eol(&rendered)),
+            // the escape sequences of the escaper are not those of regular expressions
+            // (`\b` is a word boundary, backslashes must not be doubled): only the
+            // unprintable characters are written as `\xHH`, `\uHHHH` or `\UHHHHHHHH`
+            "regex" if unprintable => {
+                let mut seq = [0; 4];
+                let expression = String::from_utf8_lossy(&expression)
+                    .chars()
+                    .map(|ch| {
+                        if escaper.has_unprintable(ch.encode_utf8(&mut seq).as_bytes()) {
+                            match ch as u32 {
+                                code @ 0..=0xff => format!("\\x{code:02x}"),
+                                code @ 0x100..=0xffff => format!("\\u{code:04x}"),
+                                code => format!("\\U{code:08x}"),
+                            }
+                        } else {
+                            ch.to_string()
+                        }
+                    })
+                    .collect::<String>();
+                format!("{expression} (regex{quantifier})")
+            }
             "glob" if unprintable => format!("{rendered} (escaped) (glob{quantifier})"),
             // a glob that ends like the escaped marker would lose that text when read
             // back, unless it is written down escaped
